@@ -2,6 +2,7 @@ package gchecks
 
 import (
 	"fmt"
+	"math/rand"
 	"os"
 	"path/filepath"
 	"strconv"
@@ -24,12 +25,12 @@ func init() {
 		Binary: "vgen",
 		Level:  "exploration",
 		Rule: "E-enum over the whole finite domains, real functions executed: (inotify, translate) newEvent on all 2^12 combinations of the twelve inspected IN_* bits x 2^4 housekeeping bits (IN_ISDIR, IN_IGNORED, IN_UNMOUNT, IN_Q_OVERFLOW) x cookie {0,n}: result == reference table, f(a|b)==f(a)|f(b), housekeeping bits never change the operations; " +
-			"(inotify, request) all 2^9 operation subsets x {follow, no-follow} x {file, directory} through AddWith on real paths, the kernel's stored mask read back from /proc/self/fdinfo == reference (every requested operation observable, no unrelated flag; the empty set fails and leaves the set untouched); plus an alias-widening case (same directory added again through a symlink with more operations: the new one must be observable) and a behavioural pass: for each single operation a scripted set of real changes must produce only that operation and must produce it; " +
+			"(inotify, request) all 2^9 operation subsets x {follow, no-follow} x {file, directory} through AddWith on real paths, the kernel's stored mask read back from /proc/self/fdinfo == reference (every requested operation observable, no unrelated flag; the empty set fails and leaves the set untouched); plus re-Add histories (2-5 AddWith calls for one path with PRNG operation sets - directory, file, symlink followed, symlink not followed, and a file replaced under its name between two calls: after every call the single kernel mark carries exactly the union of what was requested for the path), an alias-widening case (same directory added again through a symlink with more operations: the new one must be observable) and a behavioural pass: for each single operation a scripted set of real changes must produce only that operation and must produce it; " +
 			"(kqueue) the copied backend's newEvent on all 2^11 NOTE_* combinations (Write dropped with Remove, otherwise union-homomorphic), noteAllEvents == DELETE|WRITE|ATTRIB|RENAME, the fflags actually registered per knote class in the simulator, link spelling; " +
 			"(Windows) extracted newEvent on all 2^16 low masks of the sysFS* space (Chmod never), toWindowsFlags on all 2^12 masks, toFSnotifyFlags on every action 0..1023 and PRNG values; xSupports of kqueue/Windows/FEN/inotify over all 2^9 operation sets. distinct_nontrivial = distinct native masks / op sets evaluated with a non-empty result",
 		Assumptions: []string{"reference tables (harness/gen/tmpl/gchecks/c15.go) are written from the documentation of each native API", "Windows and FEN: only the extracted pure functions run (real Win32 constant values); their event loops do not exist on Linux", "kqueue registration is observed on the simulated kqueue"},
 		Batches:     func(t string) int { return 1 },
-		MustObserve: []string{"inotify_translate_masks", "inotify_request_adds", "inotify_behaviour_events", "kqueue_translate_masks", "windows_translate_masks", "xsupports_evaluations", "kqueue_knotes_seen"},
+		MustObserve: []string{"inotify_translate_masks", "inotify_request_adds", "inotify_readd_adds", "inotify_behaviour_events", "kqueue_translate_masks", "windows_translate_masks", "xsupports_evaluations", "kqueue_knotes_seen"},
 		Exhaustive:  true,
 		Run:         runC15,
 	})
@@ -103,11 +104,13 @@ func firstWd(fd int) uint32 {
 }
 
 func runC15(c *core.Ctx) {
-	if _, ok := c.CaseRng(0, "enumeration"); !ok {
+	rng, ok := c.CaseRng(0, "enumeration")
+	if !ok {
 		return
 	}
 	c15InotifyTranslate(c)
 	c15InotifyRequest(c)
+	c15InotifyReAdd(c, rng)
 	c15Kqueue(c)
 	c15Windows(c)
 	c15Supports(c)
@@ -408,6 +411,145 @@ func c15InotifyRequest(c *core.Ctx) {
 		}
 		w.Remove(d)
 		w.Remove(sent)
+	}
+}
+
+// allMasks returns the event bits of every kernel mark of the inotify descriptor.
+func allMasks(fd int) []uint32 {
+	var l []uint32
+	b, _ := os.ReadFile(fmt.Sprintf("/proc/self/fdinfo/%d", fd))
+	for _, ln := range strings.Split(string(b), "\n") {
+		if !strings.HasPrefix(ln, "inotify wd:") {
+			continue
+		}
+		for _, f := range strings.Fields(ln)[1:] {
+			if strings.HasPrefix(f, "mask:") {
+				v, _ := strconv.ParseUint(f[5:], 16, 64)
+				l = append(l, uint32(v)&unix.IN_ALL_EVENTS)
+			}
+		}
+	}
+	return l
+}
+
+// c15InotifyReAdd: histories of several AddWith calls for ONE path with different operation sets. Every
+// operation requested for the path by an Add that succeeded (and not withdrawn by Remove) must stay observable, and
+// nothing else may be subscribed: after each call the single kernel mark carries exactly the union of the
+// reference masks of all requests so far. Variants: the same file throughout; a watched symlink (follow and
+// no-follow, kept constant within a history); and "log rotation": the watched file is renamed away (it stays
+// linked, and the operations requested exclude Rename/Remove so the table entry survives) and a new file is
+// created under the watched name before the next Add - the watch must move to the new file with the union.
+func c15InotifyReAdd(c *core.Ctx, rng *rand.Rand) {
+	w, err := real.NewWatcher()
+	if err != nil {
+		c.Broken(err.Error())
+		return
+	}
+	defer func() { w.Close() }()
+	go func() {
+		for range w.Errors {
+		}
+	}()
+	go func() {
+		for range w.Events {
+		}
+	}()
+	fd := real.VerifInotifyFd(w)
+	dir := filepath.Join(c.Tmp, "c15re")
+	os.MkdirAll(filepath.Join(dir, "d"), 0o755)
+	os.WriteFile(filepath.Join(dir, "f"), nil, 0o644)
+	os.Symlink(filepath.Join(dir, "f"), filepath.Join(dir, "lf"))
+	n := 400
+	if c.Tier == "thorough" {
+		n = 6000
+	}
+	nv := 0
+	for it := 0; it < n; it++ {
+		variant := it % 5 // 0 dir, 1 file, 2 link follow, 3 link no-follow, 4 rotation
+		target := []string{"d", "f", "lf", "lf", "f"}[variant]
+		p := filepath.Join(dir, target)
+		k := 2 + rng.Intn(4)
+		rotateAt := -1
+		if variant == 4 {
+			rotateAt = 1 + rng.Intn(k-1)
+		}
+		var union uint32
+		var hist []string
+		bad := false
+		for j := 0; j < k && !bad; j++ {
+			var ops real.Op
+			var want uint32
+			for ops == 0 {
+				for _, r := range reqRef {
+					if variant == 4 && (r.op == real.Rename || r.op == real.Remove) {
+						continue
+					}
+					if rng.Intn(3) == 0 {
+						ops |= r.op
+						want |= r.mask
+					}
+				}
+			}
+			if j == rotateAt {
+				os.Remove(p + ".1")
+				if err := os.Rename(p, p+".1"); err != nil {
+					c.Broken(err.Error())
+					return
+				}
+				os.WriteFile(p, nil, 0o644)
+				hist = append(hist, "rotate")
+			}
+			opts := []real.VerifAddOpt{real.VerifWithOps(ops)}
+			if variant == 3 {
+				opts = append(opts, real.VerifWithNoFollow())
+			}
+			hist = append(hist, "Add("+ops.String()+")")
+			if err := w.AddWith(p, opts...); err != nil {
+				c.Violate("inotify-readd", fmt.Sprintf("%s: %v: %v", target, hist, err), nil)
+				bad = true
+				break
+			}
+			c.Res.Counters["inotify_readd_adds"]++
+			union |= want
+			ms := allMasks(fd)
+			if len(ms) != 1 || ms[0] != union {
+				nv++
+				if nv < 6 {
+					var got []string
+					for _, m := range ms {
+						got = append(got, maskStr(m))
+					}
+					c.Violate("inotify-readd", fmt.Sprintf("variant %d (%s) history %v: kernel marks %v; the operations requested for this path need exactly [%s]", variant, target, hist, got, maskStr(union)), map[string]interface{}{"history": hist})
+				}
+				bad = true
+			}
+		}
+		if err := w.Remove(p); err != nil && !bad {
+			c.Violate("inotify-readd", fmt.Sprintf("%v: Remove: %v", hist, err), nil)
+		}
+		if ms := allMasks(fd); len(ms) != 0 {
+			if !bad {
+				c.Violate("inotify-readd", fmt.Sprintf("%v then Remove: %d kernel marks left", hist, len(ms)), nil)
+			}
+			// start the next history from a clean watcher
+			w.Close()
+			w, err = real.NewWatcher()
+			if err != nil {
+				c.Broken(err.Error())
+				return
+			}
+			go func(w *real.Watcher) {
+				for range w.Errors {
+				}
+			}(w)
+			go func(w *real.Watcher) {
+				for range w.Events {
+				}
+			}(w)
+			fd = real.VerifInotifyFd(w)
+		}
+		c.Distinct("readd", variant, k, rotateAt, fmt.Sprint(hist))
+		c.Eval(1)
 	}
 }
 
